@@ -163,8 +163,10 @@ Definition sign_route (sigtype name : bytes) (opened : bool) (det : result (Z * 
   end.
 (* what the client tells the server, and what the server does with it *)
 Definition server_route (sigtype_param : bytes) : route :=
-  if server_sign_unknown_type (is_some (by_name sigtype_param)) then Refused E_NO_SIGNER
-  else match by_name sigtype_param with Some m => Chosen m | None => Refused E_NILMOD end.
+  let o := by_name sigtype_param in
+  (* `mod == nil || mod.Sign == nil`: the second operand is only evaluated for a module that exists *)
+  if server_sign_unknown_type (is_some o) (match o with Some m => m_has_sign m | None => false end) then Refused E_NO_SIGNER
+  else match o with Some m => Chosen m | None => Refused E_NILMOD end.
 
 (* `relic verify`: which verifier runs *)
 Inductive vroute := VStream (m : smod) (comp : Z) | VFile (m : smod) | VRefused (e : Z).
